@@ -108,6 +108,10 @@ def check(case, sub="solve"):
     metric = guarded(sub, icls, Infidelity, target=target)
     solver = guarded(sub, icls, TimeReversedSolver, target=target, metric=metric, compiler=comp)
     guarded(sub, icls, solver.solve)
+    if case.get("seed", 0) % 3 == 0:
+        # the same solver object asked again: the result examined below is that of the second call
+        guarded(sub, icls + ":second_solve", solver.solve)
+        cl.append("second_solve_on_same_object")
     score, circ = solver.result
     try:
         circ.validate()
